@@ -1426,6 +1426,10 @@ func loadViewFromJsonLinesFile(ctx context.Context, flags *option.Flags, fp *fil
 				err = e
 				break
 			}
+			if row == nil {
+				// blank line
+				continue
+			}
 
 			rowObj, ok := row.(txjson.Object)
 			if !ok {
